@@ -49,7 +49,7 @@ Ask(qs) == [v |-> "need", dev |-> "", devs |-> <<>>, at |-> 0, exp |-> <<>>, nee
 (* =============================== trace ==================================== *)
 PosObs(o) == [net |-> o.net, wt |-> o.wt, acct |-> o.acct, ch |-> o.ch, idx |-> o.idx]
 Cfg(c) == [net |-> c.net, wt |-> c.wt, acct |-> c.acct, ms |-> c.ms, cos |-> c.cos, watch |-> c.watch]
-Req(a) == [op |-> a.op, net |-> a.net, wt |-> a.wt, acct |-> a.acct, ch |-> a.ch, n |-> a.n, idx |-> a.idx, form |-> a.form]
+Req(a) == [op |-> a.op, net |-> a.net, wt |-> a.wt, acct |-> a.acct, ch |-> a.ch, n |-> a.n, idx |-> a.idx, form |-> a.form, acctin |-> a.acctin]
 LeafPos(l) == [net |-> l[1], wt |-> l[2], acct |-> l[3], ch |-> l[4], idx |-> l[5]]
 \* rows the wallet lists: <<net, wt, acct, change (-1: none), index, used (0 | 1), depth>>; the address keys are those at key depth
 Leafs(cfg, ls) == SelectSeq(ls, LAMBDA l : l[7] = KeyDepth(cfg.ms, l[2]))
@@ -107,6 +107,15 @@ WatchAcctExplain(cfg, s, a, out) ==
 ClashExplain(cfg, s, a, out) ==
     /\ ~cfg.watch /\ ~cfg.ms /\ a.op \in {"key_for_path", "new_keys", "get_keys"} /\ CoinClash(s, a.net) /\ KnownNet(a.net) /\ NetHasWt(a.net, a.wt)
     /\ Allowed(cfg, s, a, out) = "ok"
+\* DevPathAcct: the keys are those of the position asked for (path text), stored under the default account
+PathAcctExplain(cfg, s, a, e, out) ==
+    LET fixed == [k \in 1..Len(out) |-> [out[k] EXCEPT !.acct = a.acct]] IN
+    /\ ~cfg.watch /\ ~cfg.ms /\ a.acctin = "path" /\ a.net = cfg.net /\ s.dflt # 0 /\ a.acct # s.dflt
+    /\ a.op \in {"key_for_path", "export"} /\ Len(out) >= 1
+    /\ \A k \in 1..Len(out) : out[k].acct = s.dflt
+    /\ Allowed(cfg, s, a, fixed) = "ok"
+    /\ IF a.op = "export" THEN TextTokens(e.out[1].path) = AcctTokens(cfg, Acct(a.net, a.wt, a.acct))
+       ELSE \A k \in 1..Len(out) : TextTokens(e.out[k].path) = PosTokens(cfg, fixed[k])
 RefusalDevs(cfg, s, a, out) == IF MsForeignExplain(cfg, s, a, out) THEN <<DevMsForeign>>
                                ELSE IF WatchAcctExplain(cfg, s, a, out) THEN <<DevWatchAcct>>
                                ELSE IF ClashExplain(cfg, s, a, out) THEN <<DevClashServed>>
@@ -133,7 +142,8 @@ Fold(cfg, s, evs, i) ==
             ELSE IF MustRefuse(cfg, s, a)
                  THEN [bad("answered-a-request-it-cannot-serve", FlatSeq(out)) EXCEPT !.devs = RefusalDevs(cfg, s, a, out)]
             ELSE LET why == Allowed(cfg, s, a, out) IN
-                 IF why # "ok" THEN [bad(why, Expected(s, a)) EXCEPT !.devs = IF MsColumnsExplain(cfg, s, a, e) THEN <<DevMsColumns>>
+                 IF why # "ok" THEN [bad(why, Expected(s, a)) EXCEPT !.devs = IF PathAcctExplain(cfg, s, a, e, out) THEN <<DevPathAcct>>
+                                                                                  ELSE IF MsColumnsExplain(cfg, s, a, e) THEN <<DevMsColumns>>
                                                                                   ELSE Attribution(cfg, s, a, out)]
                  ELSE IF OutPathsWhy(cfg, a, e) # "ok" THEN bad(OutPathsWhy(cfg, a, e), Expected(s, a))
                  ELSE LET s2 == After(cfg, s, a, out) IN
